@@ -244,6 +244,7 @@ def run(ctx):
                            ("to_bits",), True,
                            "the sort key is the total-order transform of the raw bits: a NaN with the sign bit set (what 0.0/0.0 produces on x86) sorts before -inf while "
                            "'NaN' sorts after +inf, and -0.0 sorts strictly before 0.0 although they are equal, which breaks the order of the following keys"))
+    res.append(rule_orderalias(facts))
     return res
 
 
@@ -407,7 +408,33 @@ CLAIM = {
             "instances. Right level: ORDER BY correctness over all inputs reduces, for the encoding layer, to these finitely many "
             "constants; value-level sorting behaviour cannot be decided statically. Plus the index-space discipline of SortLayout in the "
             "sort/merge code (key positions vs heap-layout positions are never mixed). Plus the tie-resolution exit of the column-by-column block sort: the early exit tests every tie flag that involves a kept row (whole vector, or a prefix not shortened by subtraction)."
-            " Plus KEYCANON: the float sort-key encoders canonicalise NaN and the sign of zero before taking the bits.",
+            " Plus KEYCANON: the float sort-key encoders canonicalise NaN and the sign of zero before taking the bits."
+            " Plus KEYCANON (float keys canonicalise NaN / zero sign) and ORDERALIAS (a bare ORDER BY name resolves against output aliases before input columns).",
     "note": "trusted: rustc MIR; assumes the key comparison is bytewise memcmp over these encodings (read in sort code); does not decide merge/limit logic",
     "technique": "static analysis: MIR constant/sibling-agreement rules + must-pass-through (rustc_private driver)",
 }
+
+
+def rule_orderalias(facts):
+    """A bare name in ORDER BY that is an output-column alias means the output column (SQL92 / PostgreSQL), even when an input column
+    has the same name: `SELECT -a AS a .. ORDER BY a` sorts by -a. Resolving the input column first sorts by a value the user does not
+    see. Decided on OrderByColumnBinder::bind_from_ident: a select-list alias lookup precedes (can reach) the default column binding."""
+    r = RuleResult("C08-ORDERALIAS", "ORDER BY resolves a bare name against the select list's aliases before the input columns", floor=1)
+    recs = facts.fns_matching(lambda i: "bind_modifier::OrderByColumnBinder" in i and i.endswith("::bind_from_ident"))
+    if not recs:
+        r.missing_anchor("OrderByColumnBinder::bind_from_ident")
+        return r
+    rec = recs[0]
+    fn = Fn(rec)
+    r.functions.add(fn.id)
+    alias = [c for c in fn.calls() if "SelectList::column_by_user_alias" in c.name]
+    default = [c for c in fn.calls() if "DefaultColumnBinder" in c.name and c.name.endswith("::bind_from_ident")]
+    if not alias or not default:
+        r.missing_anchor("bind_from_ident: alias lookup / default binding call")
+        return r
+    ok = any(d.bb in fn.reachable_from(a.bb) for a in alias for d in default)
+    r.inst({"fn": fn.id, "alias_lookups": len(alias), "alias_before_input": ok}, ok)
+    if not ok:
+        r.violate(fn.id, "input-column-shadows-alias", "the input columns are consulted before the select list's aliases: `SELECT -a AS a .. ORDER BY a` orders by the "
+                  "hidden input column", rec["file"], default[0].line)
+    return r
